@@ -500,7 +500,7 @@ func (p *pool) run() {
 					continue
 				}
 				p.mu.Unlock()
-				to := p.perRunTimeout*time.Duration(len(specs)) + 30*time.Second
+				to := p.perRunTimeout*time.Duration(len(specs)) + time.Duration(runLimitS)*time.Second + 30*time.Second
 				oc := runJob(p.bin, specs, to)
 				p.mu.Lock()
 				if p.race && len(specs) == 1 && len(oc.results) == 1 {
@@ -1048,7 +1048,9 @@ func doCheck(prop, tier string) int {
 	if p.perRunTimeout == 0 {
 		p.perRunTimeout = 60 * time.Second
 	}
-	runLimitS = int(p.perRunTimeout / time.Second)
+	// generous: a legitimate run on a loaded machine must never be mistaken for a
+	// hang (the supervisor's per-job watchdog stays as the outer limit)
+	runLimitS = max(3*int(p.perRunTimeout/time.Second), 240)
 	if plan.Race {
 		runLimitS = 0 // free-running mode has the supervisor's watchdog only
 	}
